@@ -381,3 +381,259 @@ Proof.
     eapply set_txn_evolved with (s:=x_base s); [exact L'| |apply te_same].
     intros <- ->. eapply te_discard; eauto.
 Qed.
+
+(* ---------------------------------------------------------------------------------------- *)
+(* pending-write map facts                                                                   *)
+Lemma klookup_in l k e : klookup l k = Some e -> In (k, e) l.
+Proof.
+  induction l as [|[j b] l IH]; cbn; [discriminate|].
+  destruct (bytes_eqb j k) eqn:E.
+  - apply bytes_eqb_eq in E. subst j. intros [= ->]. now left.
+  - intros H. right. auto.
+Qed.
+
+Lemma kupdate_in l k e k' e' : In (k', e') (kupdate l k e) -> (k', e') = (k, e) \/ In (k', e') l.
+Proof.
+  induction l as [|[j b] l IH]; cbn.
+  - intros [H|[]]. left. now symmetry.
+  - destruct (bytes_eqb j k) eqn:E; cbn.
+    + intros [H|H]; [left; now symmetry|right; now right].
+    + intros [H|H]; [right; now left|]. destruct (IH H); auto.
+Qed.
+
+Lemma kupdate_keys_in l k e k' : In k' (map fst (kupdate l k e)) <-> k' = k \/ In k' (map fst l).
+Proof.
+  induction l as [|[j b] l IH]; cbn.
+  - split; [intros [H|[]]; now left|intros [H|[]]; now left].
+  - destruct (bytes_eqb j k) eqn:E; cbn.
+    + apply bytes_eqb_eq in E. subst j. split; [intros [H|H]; auto|intros [H|[H|H]]; auto].
+    + rewrite IH. tauto.
+Qed.
+
+Lemma kupdate_nodup l k e : NoDup (map fst l) -> NoDup (map fst (kupdate l k e)).
+Proof.
+  induction l as [|[j b] l IH]; cbn; intros H.
+  - constructor; [intros []|constructor].
+  - inversion H as [|? ? Hn Hd]; subst. destruct (bytes_eqb j k) eqn:E; cbn.
+    + apply bytes_eqb_eq in E. subst j. now constructor.
+    + constructor; auto. rewrite kupdate_keys_in. intros [->|Hin]; auto.
+      now rewrite bytes_eqb_refl in E.
+Qed.
+
+Definition txn_wf (x : txn) : Prop :=
+  (forall k e, In (k, e) (x_pend x) -> e_key e = k) /\
+  (forall e, In e (x_dups x) -> In (e_key e) (map fst (x_pend x))) /\
+  NoDup (map fst (x_pend x)).
+
+Definition txn_api (x : txn) : Prop :=
+  (forall k e, In (k, e) (x_pend x) -> e_ver e = 0) /\ x_dups x = [].
+
+Lemma txn_modify_cases x e :
+  snd (txn_modify x e) = x \/
+  (fst (txn_modify x e) = 0 /\
+   snd (txn_modify x e) =
+     mkTxn (x_read x) (x_update x) (x_reads x) (kupdate (x_pend x) (e_key e) e)
+       (match klookup (x_pend x) (e_key e) with
+        | Some old => if e_ver old =? e_ver e then x_dups x else x_dups x ++ [old]
+        | None => x_dups x
+        end) (x_done x)).
+Proof.
+  unfold txn_modify. destruct (negb (x_update x)); [now left|]. destruct (x_done x); [now left|].
+  destruct (e_key e) as [|b0 k0] eqn:Ek; [now left|].
+  destruct (is_prefix c_badgerPrefix (b0 :: k0)); [now left|]. right. split; reflexivity.
+Qed.
+
+Lemma txn_modify_wf x e : txn_wf x -> txn_wf (snd (txn_modify x e)).
+Proof.
+  intros (W1 & W2 & W3). destruct (txn_modify_cases x e) as [->|[_ ->]]; [now repeat split|].
+  unfold txn_wf. cbn [x_pend x_dups]. repeat split.
+  - intros k e' H. apply kupdate_in in H. destruct H as [[= -> ->]|H]; auto.
+  - intros e' H. apply kupdate_keys_in.
+    destruct (klookup (x_pend x) (e_key e)) as [old|] eqn:El.
+    + assert (Ho: e_key old = e_key e) by (apply W1; now apply klookup_in).
+      destruct (e_ver old =? e_ver e); [right; auto|].
+      apply in_app_iff in H. destruct H as [H|[<-|[]]]; [right; auto|now left].
+    + right; auto.
+  - now apply kupdate_nodup.
+Qed.
+
+Lemma txn_modify_api x e : e_ver e = 0 -> txn_api x -> txn_api (snd (txn_modify x e)).
+Proof.
+  intros Hv (A1 & A2). destruct (txn_modify_cases x e) as [->|[_ ->]]; [now split|].
+  unfold txn_api. cbn [x_pend x_dups]. split.
+  - intros k e' H. apply kupdate_in in H. destruct H as [[= -> ->]|H]; eauto.
+  - destruct (klookup (x_pend x) (e_key e)) as [old|] eqn:El; auto.
+    apply klookup_in in El. apply A1 in El. rewrite El, Hv. cbn. exact A2.
+Qed.
+
+(* ---------------------------------------------------------------------------------------- *)
+(* conflict check                                                                            *)
+Lemma has_conflict_true s x :
+  has_conflict s x = true <->
+  exists cw k, In cw (s_committed s) /\ x_read x < fst cw /\ In k (x_reads x) /\ In k (snd cw).
+Proof.
+  unfold has_conflict. rewrite existsb_exists. split.
+  - intros (cw & Hin & H). apply andb_true_iff in H. destruct H as [Hlt H].
+    apply existsb_exists in H. destruct H as (r & Hr & H). apply existsb_exists in H.
+    destruct H as (w & Hw & H). apply bytes_eqb_eq in H. subst w.
+    exists cw, r. repeat split; auto. now apply N.ltb_lt.
+  - intros (cw & k & Hin & Hlt & Hr & Hw). exists cw. split; auto. apply andb_true_iff. split.
+    + now apply N.ltb_lt.
+    + apply existsb_exists. exists k. split; auto. apply existsb_exists. exists k. split; auto.
+      apply bytes_eqb_refl.
+Qed.
+
+(* committedTxns may be pruned below the read timestamp without changing the answer: the
+   implementation's cleanupCommittedTransactions drops entries with ts <= the read watermark
+   (normal mode: readMark.DoneUntil, at most the read timestamp of every transaction that has not
+   finished; managed mode: discardTs, at most every live read timestamp by the caller contract),
+   the model never prunes *)
+Definition set_committed (s : sys) (cm : list (N * list bytes)) : sys :=
+  mkSys (s_db s) (s_next s) cm (s_txns s) (s_managed s) (s_detect s) (s_nkeep s) (s_discard s) (s_writes s) (s_now s).
+
+Lemma has_conflict_pruned s x cm :
+  (forall cw, In cw cm -> In cw (s_committed s)) ->
+  (forall cw, In cw (s_committed s) -> x_read x < fst cw -> In cw cm) ->
+  has_conflict (set_committed s cm) x = has_conflict s x.
+Proof.
+  intros Hsub Hkeep. apply eq_true_iff_eq. rewrite !has_conflict_true. cbn [set_committed s_committed].
+  split; intros (cw & k & Hin & Hlt & Hr & Hw); exists cw, k; repeat split; auto.
+Qed.
+
+Lemma has_conflict_cleanup s x w :
+  w <= x_read x ->
+  has_conflict (set_committed s (filter (fun cw => w <? fst cw) (s_committed s))) x = has_conflict s x.
+Proof.
+  intros Hw. apply has_conflict_pruned.
+  - intros cw H. apply filter_In in H. tauto.
+  - intros cw H Hlt. apply filter_In. split; auto. apply N.ltb_lt. lia.
+Qed.
+
+(* ---------------------------------------------------------------------------------------- *)
+(* log algebra                                                                               *)
+Lemma log_writes_app L1 L2 : log_writes (L1 ++ L2) = log_writes L1 ++ log_writes L2.
+Proof. unfold log_writes. now rewrite filter_app, map_app, concat_app. Qed.
+
+Lemma log_writes_in L e :
+  In e (log_writes L) <-> exists c, In c L /\ cr_applied c = true /\ In e (cr_wr c).
+Proof.
+  unfold log_writes. rewrite in_concat. split.
+  - intros (l & Hl & He). apply in_map_iff in Hl. destruct Hl as (c & <- & Hc).
+    apply filter_In in Hc. exists c. tauto.
+  - intros (c & Hc & Ha & He). exists (cr_wr c). split; auto. apply in_map. apply filter_In. auto.
+Qed.
+
+Definition before (L : list crec) (a b : crec) : Prop :=
+  exists L1 L2 L3, L = L1 ++ a :: L2 ++ b :: L3.
+
+Lemma before_snoc L c a b :
+  before (L ++ [c]) a b -> before L a b \/ (b = c /\ In a L).
+Proof.
+  intros (L1 & L2 & L3 & E). induction L3 as [|y L3'' _] using rev_ind.
+  - right. assert (E': L ++ [c] = (L1 ++ a :: L2) ++ [b]) by (rewrite E, <- app_assoc; reflexivity).
+    apply app_inj_tail in E'. destruct E' as [-> ->]. split; auto. apply in_or_app. right. now left.
+  - left.
+    assert (E': L ++ [c] = (L1 ++ a :: L2 ++ b :: L3'') ++ [y]).
+    { rewrite E. rewrite <- app_assoc. cbn. rewrite <- app_assoc. reflexivity. }
+    apply app_inj_tail in E'. destruct E' as [-> _]. now exists L1, L2, L3''.
+Qed.
+
+Lemma before_in_split L1 c L2 a : In a L1 -> before (L1 ++ c :: L2) a c.
+Proof.
+  intros H. apply in_split in H. destruct H as (A & B & ->).
+  exists A, B, L2. rewrite <- app_assoc. reflexivity.
+Qed.
+
+Lemma before_split_after L1 c L2 b : In b L2 -> before (L1 ++ c :: L2) c b.
+Proof.
+  intros H. apply in_split in H. destruct H as (A & B & ->). now exists L1, A, B.
+Qed.
+
+(* commit timestamps n, n+1, n+2, ... along the log *)
+Fixpoint consec (n : N) (L : list crec) : Prop :=
+  match L with [] => True | c :: r => cr_cts c = n /\ consec (n + 1) r end.
+
+Lemma consec_app n A B : consec n (A ++ B) <-> consec n A /\ consec (n + N.of_nat (length A)) B.
+Proof.
+  revert n. induction A as [|a A IH]; intros n; cbn [app consec length].
+  - rewrite N.add_0_r. tauto.
+  - rewrite IH. replace (n + 1 + N.of_nat (length A)) with (n + N.of_nat (S (length A))) by lia. tauto.
+Qed.
+
+Lemma consec_before n L a b : consec n L -> before L a b -> cr_cts a < cr_cts b.
+Proof.
+  intros H (L1 & L2 & L3 & ->). apply consec_app in H. destruct H as [_ H]. cbn [consec] in H.
+  destruct H as [Ea H]. apply consec_app in H. destruct H as [_ H]. cbn [consec] in H.
+  destruct H as [Eb _]. lia.
+Qed.
+
+Lemma consec_in n L c : consec n L -> In c L -> n <= cr_cts c < n + N.of_nat (length L).
+Proof.
+  revert n. induction L as [|a L IH]; intros n H Hin; [contradiction|]. cbn [consec length] in *.
+  destruct H as [Ea H]. destruct Hin as [->|Hin]; [lia|]. specialize (IH _ H Hin). lia.
+Qed.
+
+(* ---------------------------------------------------------------------------------------- *)
+(* invariants of reachable states                                                            *)
+Section Reach.
+  Variables (fx m d : bool) (nk : N) (nl : nat) (next0 : N).
+  Let s0 := init_xsys m d nk nl next0.
+
+  Lemma reach_flags P s L : xreach P fx s0 s L ->
+    s_managed (x_base s) = m /\ s_detect (x_base s) = d.
+  Proof.
+    induction 1 as [|s L o s' R IH Po St]; [split; reflexivity|].
+    apply xstep_flags in St. destruct St as [-> ->]. exact IH.
+  Qed.
+
+  (* the conflict log is exactly the logged records; the applied writes are exactly the
+     entries of the applied records, in order *)
+  Lemma reach_log P s L : xreach P fx s0 s L ->
+    s_committed (x_base s) = (if d then map ckey (filter (logged fx) L) else []) /\
+    s_writes (x_base s) = log_writes L.
+  Proof.
+    induction 1 as [|s L o s' R IH Po St]; [destruct d; split; reflexivity|].
+    destruct IH as [IHc IHw]. destruct (reach_flags _ _ _ R) as [Fm Fd].
+    destruct (xstep_outcome _ _ _ _ St) as [E Ec Ew En|t x cts ap El Ep Ed Ecf E Es].
+    - rewrite E, app_nil_r, Ec, Ew. auto.
+    - rewrite E, filter_app, map_app, log_writes_app, Es. destruct ap.
+      + unfold applied_state. cbn [s_committed s_writes]. rewrite Fd, IHc, IHw.
+        unfold log_writes, logged. cbn. rewrite app_nil_r. destruct d; split; reflexivity.
+      + unfold rejected_state. cbn [s_committed s_writes]. rewrite Fd, IHc, IHw.
+        unfold log_writes, logged. cbn. rewrite app_nil_r. destruct d, fx; cbn; rewrite ?app_nil_r; split; reflexivity.
+  Qed.
+
+  Lemma reach_txns (Q : txn -> Prop) (P : xop -> Prop) s L :
+    (forall rts upd, Q (mkTxn rts upd [] [] [] false)) ->
+    (forall x e t r, P (Base (Modify t e r)) -> Q x -> Q (snd (txn_modify x e))) ->
+    (forall x rd, Q x -> Q (mkTxn (x_read x) (x_update x) rd (x_pend x) (x_dups x) (x_done x))) ->
+    (forall x, Q x -> Q (discard_txn x)) ->
+    xreach P fx s0 s L -> txns_ok Q (s_txns (x_base s)).
+  Proof.
+    intros Q0 Qm Qr Qd. induction 1 as [|s L o s' R IH Po St]; [intros t x; discriminate|].
+    intros t' x' Hl. destruct (xstep_txns _ _ _ _ _ _ St Hl) as [H|upd Eo Ex|x e r H Eo Ex|x rd H Ex|x H Ex].
+    - eapply IH; eauto.
+    - rewrite Ex. apply Q0.
+    - subst. eapply Qm; eauto.
+    - subst. eapply Qr; eauto.
+    - subst. eapply Qd; eauto.
+  Qed.
+
+  Lemma reach_wf P s L : xreach P fx s0 s L -> txns_ok txn_wf (s_txns (x_base s)).
+  Proof.
+    apply reach_txns.
+    - intros rts upd. repeat split; cbn; try contradiction. constructor.
+    - intros x e t r _. apply txn_modify_wf.
+    - intros x rd H. exact H.
+    - intros x H. exact H.
+  Qed.
+
+  Lemma reach_api s L : xreach xop_api fx s0 s L -> txns_ok txn_api (s_txns (x_base s)).
+  Proof.
+    apply reach_txns.
+    - intros rts upd. split; cbn; [contradiction|reflexivity].
+    - intros x e t r Hp. apply txn_modify_api. exact Hp.
+    - intros x rd H. exact H.
+    - intros x H. exact H.
+  Qed.
+End Reach.
